@@ -94,7 +94,7 @@ fn signature(plan: &Plan, ctx: &Ctx) -> (u64, bool) {
     // damage locus of the first medium fault, relative to the first record's length
     if let Some(f) = plan.medium.first() {
         let at = match f {
-            MFault::Trunc { at } | MFault::Flip { at, .. } | MFault::Sub { at, .. } | MFault::Zero { at, .. } | MFault::Dup { at, .. } => *at,
+            MFault::Trunc { at } | MFault::Flip { at, .. } | MFault::Sub { at, .. } | MFault::Zero { at, .. } | MFault::Dup { at, .. } | MFault::Field { at, .. } => *at,
             _ => 0,
         };
         d.u8(match at {
@@ -388,9 +388,10 @@ fn apply_fault(ctx: &mut Ctx, plan: &Plan, arm: &ArmInfo, framing: Framing, segs
             if let Some((i, local)) = locate(segs, *at) {
                 ctx.fire("M-TRUNC");
                 ctx.event("M-TRUNC", i as u64, local as u64);
-                if local == 0 {
+                if local == 0 && framing == Framing::Stream {
                     segs[i].dropped = true;
                 } else {
+                    // externally framed: the torn record still arrives, possibly as an empty message
                     segs[i].bytes.truncate(local);
                 }
                 segs[i].damaged = true;
@@ -441,6 +442,17 @@ fn apply_fault(ctx: &mut Ctx, plan: &Plan, arm: &ArmInfo, framing: Framing, segs
                 segs[i].bytes.extend(dup);
                 segs[i].bytes.extend(tail);
                 segs[i].damaged = true;
+            }
+        }
+        MFault::Field { at, bytes } => {
+            if let Some((i, local)) = locate(segs, *at) {
+                let end = (local + bytes.len()).min(segs[i].bytes.len());
+                if segs[i].bytes[local..end] != bytes[..end - local] {
+                    ctx.fire("M-FIELD");
+                    ctx.event("M-FIELD", *at as u64, bytes.len() as u64);
+                    segs[i].bytes[local..end].copy_from_slice(&bytes[..end - local]);
+                    segs[i].damaged = true;
+                }
             }
         }
         MFault::Tail { bytes } => {
